@@ -25,12 +25,12 @@ func paramOfType(fn *ssa.Function, typ string, n int) *ssa.Parameter {
 }
 
 const (
-	tInt     = "cosmossdk.io/math.Int"
-	tDec     = "github.com/cosmos/cosmos-sdk/types.Dec"
-	tTime    = "time.Time"
-	tAddr    = "github.com/cosmos/cosmos-sdk/types.AccAddress"
-	tCoins   = "github.com/cosmos/cosmos-sdk/types.Coins"
-	tSdkInt  = "github.com/cosmos/cosmos-sdk/types.Int"
+	tInt    = "cosmossdk.io/math.Int"
+	tDec    = "github.com/cosmos/cosmos-sdk/types.Dec"
+	tTime   = "time.Time"
+	tAddr   = "github.com/cosmos/cosmos-sdk/types.AccAddress"
+	tCoins  = "github.com/cosmos/cosmos-sdk/types.Coins"
+	tSdkInt = "github.com/cosmos/cosmos-sdk/types.Int"
 )
 
 // trueEdgesOf: edges on which the boolean value v is true.
